@@ -16,14 +16,18 @@ class Window:
     the scheduler takes care of that when needed
     """
 
-    def __init__(self, jobs_window):
+    def __init__(self, jobs_window, jobs=()):
         # jobs_window needs to be an integer
         if jobs_window is None:
             jobs_window = 0
         self.jobs_window = jobs_window
         self.queue = asyncio.Queue(maxsize=jobs_window)
+        # how many jobs of the run are still expected to complete: the ones
+        # that don't run forever
+        self.nb_finite = len([job for job in jobs if not job.forever])
         # the window is closed when the run is over, i.e. once a critical
-        # job has failed: a job that obtains a slot from then on does not start
+        # job has failed, or no job is expected to complete any more:
+        # a job that obtains a slot from then on does not start
         self.closed = False
 
     def run_job(self, job):
@@ -55,6 +59,10 @@ class Window:
             finally:
                 # release slot in the queue, whatever the outcome of the job
                 # (it may have raised, or been cancelled)
+                if not job.forever:
+                    self.nb_finite -= 1
+                    if self.nb_finite == 0:
+                        self.closed = True
                 if release:
                     await self.queue.get()
             # return the right thing
